@@ -17,6 +17,9 @@ TYPES = {
     "L_L_b": List[List[bool]],
     "D_s_T1": Dict[str, Tuple[str]],
     "S_O_s": typing.Sequence[Optional[str]],
+    # look-alike literals requested from ONE retort (bool vs int cases)
+    "T_L1_LT": Tuple[Literal[1], Literal[True]],
+    "T_LF_L0": Tuple[Literal[False, "a"], Literal[0, "a"]],
 }
 LD = {(n, k): r.get_loader(t) for n, t in TYPES.items() for k, r in RS.items()}
 
@@ -131,6 +134,7 @@ def skel(name, a, b, k1, k2):
     if name == "L_L_b": return outer([inner_list(a), [b]], "list")
     if name == "D_s_T1": return outer({"k": inner_list(a) if k2 else (a,)}, "dict")
     if name == "S_O_s": return outer((a, b) if k2 == 0 else inner_list(a), "list")
+    if name in ("T_L1_LT", "T_LF_L0"): return outer((a, b) if k2 == 0 else inner_list(a), "list")
     raise KeyError(name)
 
 def l3_c02(name, a, b, k1, k2):
@@ -160,16 +164,18 @@ def l3_c06(name, a, b, k1, k2):
     return True
 
 def l3_c07(name, a, b, k1, k2):
+    exp = ref_outcome(name, skel(name, a, b, k1, k2), True)
     for dt in DT_MODES:
         s = outcome(LD[(name, (True, dt))], skel(name, a, b, k1, k2))
         l = outcome(LD[(name, (False, dt))], skel(name, a, b, k1, k2))
         if s[0] == "ok":
             if l[0] != "ok": return False
             if name not in ("O_L_U",) and not same(s[2], l[2]): return False        # int|str overlaps in lax mode
+            if exp[0] != "ok": return False        # strict never accepts data outside the documented strict origins (no bool for an int, no str for a list, ...)
     return True
 '''
 
-NAMES = ["L_D_Oi", "D_L_T", "O_L_U", "T_Ob_Li", "D_i_Li", "L_Lit", "M_s_Si", "L_L_b", "D_s_T1", "S_O_s"]
+NAMES = ["L_D_Oi", "D_L_T", "O_L_U", "T_Ob_Li", "D_i_Li", "L_Lit", "M_s_Si", "L_L_b", "D_s_T1", "S_O_s", "T_L1_LT", "T_LF_L0"]
 
 
 def l3_module(prop: str, tier: str) -> Module:
